@@ -29,6 +29,22 @@ CHECKS = {
              "extract(x).frames must equal, as frame objects and line numbers, the path of a BaseException thrown into x right "
              "after; leaf/root/exhausted/with_contexts clauses checked." + HELD,
              "Trusted: CPython's traceback of the thrown exception and the templates' own unwinding log as ground truth."),
+    "C06": E("exploration", "5/C06",
+             "metamorphic property testing: observed run vs never-observed twin of generated programs/chains, at Hypothesis-drawn subsets of extraction points; plus refcount / referrer / weakref retention oracles",
+             "For generated with-programs (all kinds) and await chains, extraction at a drawn subset of suspension and probe points "
+             "(1-3 repetitions, both analysis modes) must leave the event trace identical to the unobserved twin; consecutive "
+             "extractions compare equal; reference counts of managers / target / frame / value-stack methods are unchanged after "
+             "extract-and-drop rounds (after a same-state warm-up); nothing from stackscope refers to the managers; the target is "
+             "collectable; the worker survives. 3.9-3.12; includes the saved F9 crash history." + HELD,
+             "Trusted: sys.getrefcount/gc.get_referrers/weakref as retention oracles; silent memory corruption is not visible."),
+    "C07": E("exploration", "5/C07",
+             "property-based testing of blocked threads (shadow call log) + enumerated interleavings at guarded yield points with a scripted target thread + randomised stress under a 1us switch interval",
+             "Blocked leg: generated thread bodies on 3.9-3.12 compared with the shadow call log and the f_back chain. Racing leg "
+             "(3.11/3.12): every yield point inside inspect_frame / unwrap_thread / the other-thread search x every amount of target "
+             "progress (incl. leaving the frame, thread exit, ident reuse by a new thread) for three scripted targets and four entry "
+             "points; the call must not crash/raise, must not report foreign frames, and the non-exiting contexts must be consistent "
+             "with one instruction position or the snapshot rejected. Stress run as smoke test." + HELD,
+             "Trusted: yield points = real preemption points; the racing clause is not explored on 3.9/3.10 (no protocol to explore; stated limit)."),
     "C08": E("exploration", "5/C08",
              "property-based testing: generated with-programs with 16 target forms x 3 layouts; oracle = renderer's record + ast comparison",
              "Dynamic leg: every context reported for generated programs (suspended and running, 3.9-3.12) is matched to its with item "
